@@ -276,6 +276,9 @@ def check_generators(ctx):
 
 
 def run(ctx):
+    from ..lints import check_stale_loop_variables
+
+    check_stale_loop_variables(ctx, "C08-D7 loop-variables", ['circuits._circuit', 'circuits._generators', 'circuits._gates'])
     from .c07 import check_dagger_semantics
 
     check_dagger_semantics(ctx, "C08-D4 per-gate-dagger")
